@@ -546,6 +546,26 @@ Definition mon_step (unk : bool) (o : op) (prev cur : obs) : list string :=
      (if rp_pr (c_repl (o_served cur)) && rp_pr (c_repl (o_served prev)) && negb (opt_eqb rule_eqb (o_srule prev) (o_srule cur))
       then ["C18:rejected-replication-change-edited-served-rule"] else [])
    else []) ++
+  (* 2b an accepted change is what is served afterwards: the section (or item) the request names has the requested value *)
+  (if is_ok (o_res cur) then
+     let sv := o_served cur in let pv := o_served prev in
+     let served_as_requested :=
+       match o with
+       | OSetSchedule c _ => sched_eqb (c_sched sv) c
+       | OSetReplication c _ => repl_eqb (c_repl sv) c
+       | OSetPDServer c _ =>
+           pd_eqb (c_pd sv) (PdSrv (if dash_keyword (ps_dash c) then ps_dash c else norm_dash (ps_dash c)) (ps_digit c) (ps_trace c) (ps_key c))
+       | OSetLabel t k v _ => lp_eqb (c_lp sv) (lp_set (c_lp pv) t k v)
+       | ODelLabel t k v _ => lp_eqb (c_lp sv) (lp_delete (c_lp pv) t k v)
+       | OSetVersion (Some v) _ => ver_eqb (c_ver sv) v
+       | OSetVersion None _ => true
+       | OSetMode c _ => rm_eqb (c_rm sv) c
+       | OSetLabelMap m _ => lp_eqb (c_lp sv) m
+       | OSetStoreLimit id t rate dflt _ => conf_eqb (with_limits sv []) (with_limits pv []) && conf_eqb sv (with_limits sv (lim_set (c_limits pv) id t rate dflt))
+       | OSetAllLimits t rate _ => conf_eqb sv (with_limits sv (lim_all (c_limits pv) t rate))
+       end in
+     if served_as_requested then [] else ["C18:accepted-change-not-served"]
+   else []) ++
   (* 3 an accepted change is what a new leader reloads, up to the documented normalisation *)
   (if is_ok (o_res cur) then
      (match o_reload cur with
@@ -625,6 +645,14 @@ Definition mon_jstep (st : jstep) : list string :=
   if String.eqb path "leader-change" then
     (if conf_eqb sv (normalise rl) then [] else ["C18:new-leader-serves-a-different-configuration"])
   else if String.eqb path "leader-change-after-unknown-write" then []
+  else if String.eqb path "coordinator-start" then
+    (* the coordinator passed its wait for the cluster to be prepared, created the schedulers and wrote the schedule section back: what
+       is served is still what was served (last component) - an update accepted while it waited is not overwritten *)
+    (* (the coordinator drops from the list the schedulers it could not create, e.g. evict-leader without a store: the list may shrink) *)
+    (let strip (c : conf) := with_sched c (Sched (sc_tol (c_sched c)) (sc_low (c_sched c)) (sc_high (c_sched c)) [] (sc_dis (c_sched c))
+                                              (sc_sbr (c_sched c)) (sc_pay (c_sched c))) in
+     if conf_eqb (strip sv) (strip rl) && forallb (fun t => mem_str t (sc_scheds (c_sched rl))) (sc_scheds (c_sched sv))
+     then [] else ["C18:coordinator-start-overwrote-an-accepted-change"])
   else if is_ok r then
     (* an accepted change is what a new leader reloads *)
     (if conf_eqb rl (normalise sv) then [] else ["C18:accepted-change-not-reloaded"])
